@@ -15,6 +15,11 @@ fn seed_values() -> Vec<f64> {
     (0..15).map(|i| ((i * 7919 + 13) % 1000) as f64 / 7.0 + if i % 4 == 0 { 1e-7 } else { 0.0 }).collect()
 }
 
+fn big_values() -> Vec<f64> {
+    // newline bytes only near the start: a line-buffered stdout then holds a long tail without any newline
+    (0..300).map(|i| match i { 0 => 3.25, 7 => 2053.0, _ => ((i * 37 + 11) % 1000) as f64 / 8.0 + 0.0625 }).collect()
+}
+
 fn seed_vcf() -> String {
     let cols: Vec<String> = ["a", "b", "c"].iter().map(|s| s.to_string()).collect();
     let rows = [["0/1", "1/1", "0/0"], ["0/0", "0/1", "1/1"], ["1/1", "1/1", "0/1"], ["0/1", "0/0", "0/0"], ["0/0", "0/0", "0/1"], ["1|0", "0|1", "1|1"]];
@@ -73,6 +78,9 @@ pub fn run(case: &Value, ctx: &Ctx) -> Outcome {
                             produced = r.stdout;
                         }
                         "seedtext" => produced = cli::write_text(&SEED_SHAPE, &seed_values(), 17),
+                        // large spectra (more than a stdout buffer) whose doubles contain newline bytes (3.25, 2053.0)
+                        "bigtext" => produced = cli::write_text(&[15, 20], &big_values(), 17),
+                        "bignpy" => produced = cli::write_npy(&[15, 20], &big_values()),
                         _ => produced = cli::write_npy(&SEED_SHAPE, &seed_values()),
                     }
                     match parse_any(&produced) {
